@@ -135,8 +135,24 @@ def make_case(r, lexical_corner=False):
                           '(push 1)(pop 1)\n'])
     rules, pred = workload.pick_spec(r, text,
                                      nclasses=r.choice([2, 2, 3]))
+    unbalanced = lexical_corner and r.random() < 0.4
+    if unbalanced:
+        # the failure is one of the *shape* of the file (a command cut off at
+        # the end, a parenthesis too many): ddSMT reads such a file
+        # leniently, but nothing it renders has that shape, so no candidate
+        # can be accepted and whatever it leaves in the output file must
+        # still behave like the input
+        body = text.rstrip()
+        if r.random() < 0.5 and body.endswith(')'):
+            text = body[:-1] + r.choice(['', '\n'])
+        else:
+            text = body + r.choice([')', '\n)\n', ' ) '])
+        pred = 'balanced !'
+        rules = [realrun.rule(pred, 3, '(error "unexpected end of file")\n',
+                              ''),
+                 realrun.rule('all', 0, '', '')]
     nontext = None
-    if r.random() < 0.12:
+    if not unbalanced and r.random() < 0.12:
         # a command whose messages are not text: the two classes differ in
         # one byte that is not valid UTF-8 (same exit status)
         junk = r.sample(['%FF', '%FE', '%80', '%C3%28', '%E9'], 2)
@@ -176,6 +192,7 @@ def make_case(r, lexical_corner=False):
         'jobs': j,
         'delay': delay,
         'lexical_corner': lexical_corner,
+        'unbalanced_input': unbalanced,
         'cc_same_basename': same_basename,
         'non_text_output': nontext,
     }
@@ -192,6 +209,8 @@ def run_case(res, r, wd, case):
         res.count('runs_with_equally_named_executables')
     if desc.get('non_text_output'):
         res.count('runs_with_non_text_command_output')
+    if desc.get('unbalanced_input'):
+        res.count('runs_on_unbalanced_input')
     verdict = judge_run(res, r, run, rules, cc_rules, cmp_opts, cc_ignore,
                         desc)
     res.count(f'verdict_{verdict}')
